@@ -78,8 +78,8 @@ func Padding(n, kind int) []byte {
 	case 3: // line comments
 		for b.Len() < n {
 			rest := n - b.Len()
-			if rest >= 32 {
-				b.WriteString("// padding padding padding pad.\n")
+			if rest >= 27 {
+				b.WriteString("// padding padding padd.\n") // 27 bytes: a period coprime with the buffer size
 			} else if rest >= 3 {
 				b.WriteString("//")
 				b.WriteString(strings.Repeat("x", rest-3))
